@@ -11,7 +11,7 @@
      cell_good f c : cell c is acceptable for field f (nested: a row of acceptable cells for a non-empty sub-schema)
      arg_good f a  : constructor argument a (python list, or Inner( *columns)) holds acceptable values for field f *)
 From Coq Require Import String ZArith List Bool Permutation.
-From BNP Require Import Base.Prims Model.C19 Proofs.C19 Proofs.C19_rows.
+From BNP Require Import Base.Prims Model.C19 Proofs.C19 Proofs.C19_rows Gen.C19 Bridge.C19.
 Import ListNotations.
 Open Scope Z_scope.
 
@@ -175,6 +175,62 @@ Proof.
                             (conj (split_dot_nodot name H) (fun entries => sub_dict_of_todict name entries H))).
 Qed.
 Print Assumptions C19_dict_names.
+
+(* Source tie: the decision rules regenerated from /repo on this run (Gen/C19.v, by translate/gen_c19.py from
+   bnpdataclass.py and string_array.py) are the rules Model/C19.v names — from_entry_tuples (zip( *tuples), empty()
+   for zero columns), the sort_by key representation and kind='stable', the ORDER of the type tests of the implicit
+   conversion and the conversion each branch applies, the empty-column dtype rule, the one-symbol check of flat
+   encodings, the nested-table row conversion, add_fields' name check and empty-column rule, the dotted-name join and
+   split of todict/from_dict, and StringArray's lengths / padding side / width from an encoded array. *)
+Theorem C19_source_tie :
+  gen_from_rows_transposes = m_from_rows_transposes
+  /\ gen_from_rows_empty_rule = m_from_rows_empty_rule
+  /\ (forall is_era is_sa, gen_sort_key_rule is_era is_sa = m_sort_key_rule fix4_sort_strings is_era is_sa)
+  /\ gen_sort_stable = m_sort_stable
+  /\ gen_dispatch = m_dispatch
+  /\ (forall a b c d, gen_empty_dtype_rule a b c d = m_empty_dtype_rule fix5_empty_dtype a b c d)
+  /\ (forall a b c, gen_flat_check_raises a b c = m_flat_check_raises fix6_flat_cells a b c)
+  /\ gen_nested_converts_rows = m_nested_converts_rows
+  /\ (forall a, gen_add_name_raises a = m_add_name_raises a)
+  /\ gen_add_empty_typed_raises = m_add_empty_typed_raises
+  /\ (forall name sub, gen_dict_join name sub = m_dict_join name sub)
+  /\ gen_dict_split = m_dict_split
+  /\ (forall row, gen_sa_length row = m_sa_length row)
+  /\ gen_sa_pads_right = m_sa_pads_right
+  /\ (forall a w, gen_sa_width_from_encoded a w = m_sa_width_from_encoded a w).
+Proof.
+  exact (conj b_from_rows_transposes (conj b_from_rows_empty_rule (conj b_sort_key_rule (conj b_sort_stable
+        (conj b_dispatch (conj b_empty_dtype_rule (conj b_flat_check_raises (conj b_nested_converts_rows
+        (conj b_add_name_raises (conj b_add_empty_typed_raises (conj b_dict_join (conj b_dict_split
+        (conj b_sa_length (conj b_sa_pads_right b_sa_width_from_encoded)))))))))))))).
+Qed.
+Print Assumptions C19_source_tie.
+(* ... and the model functions the theorems above are about follow those named rules *)
+Theorem C19_model_follows_rules :
+  (forall sch r rows,
+      m_from_rows sch [] = (if m_from_rows_empty_rule then m_empty fix5_empty_dtype sch else None)
+      /\ m_from_rows sch (r :: rows)
+         = (if has_nested sch && negb m_nested_converts_rows then None else m_from_rows_nonempty sch (r :: rows)))
+  /\ (forall fx4 f t b, nth_error t f = Some (CBase b) -> sort_key_pinned (CBase b) = None ->
+        if m_sort_key_rule fx4 (is_era b) (is_sa b) =? 0 then m_sort_by_gen fx4 f t = None
+        else exists ks, str_keys b = Some ks /\ m_sort_by_gen fx4 f t = Some (m_select (argsort_by lex_leb [] ks) t))
+  /\ (forall fx5 fx6 k l c, bcol_of_cells_gen fx5 fx6 k l = Some c ->
+        first_action m_dispatch (kind_test k) = Some (bcol_action c))
+  /\ (forall fx5 k, kind_test k = "numeric"%string ->
+        num_dt fx5 k [] = dt_of_rule (m_empty_dtype_rule fx5 true true (kind_int_or_bool k) (kind_bool k)))
+  /\ (forall fx5 fx6 ss,
+        m_flat_check_raises fx6 true true (negb (forallb (fun s => Nat.eqb (length s) 1) ss)) = true ->
+        bcol_of_cells_gen fx5 fx6 KStrand (map MS ss) = None)
+  /\ (forall fx3 k t, negb fx3 = true -> m_add_gen fx3 k [] t = None)
+  /\ (forall name sub, ~ In dot name -> split_dot (m_dict_join name sub) = (name, Some sub))
+  /\ (forall w s, Forall (fun c => c <> 0) s -> len s <= w ->
+        m_sa_length (pad w s) = len s /\ m_sa_length (pad w s) = len (strip_nul (pad w s))).
+Proof.
+  exact (conj from_rows_follows_rules (conj sort_follows_key_rule (conj conversion_follows_dispatch
+        (conj empty_dtype_follows_rule (conj flat_check_follows_rule (conj add_follows_empty_rule
+        (conj dict_split_inverts_join sa_length_of_padded))))))).
+Qed.
+Print Assumptions C19_model_follows_rules.
 
 (* non-vacuity: a 3-row table with an identifier (width 4), a ragged int-list, an int and a nested column; reversing
    it, masking it and concatenating it with a table whose identifier column is wider give the expected rows *)
